@@ -114,12 +114,14 @@ def run_ensemble(rng, obs):
     import mystic.termination as mt
     which = rng.choice(['lattice', 'buckshot', 'sparsity'])
     dim = rng.randint(1, 3)
-    cost_spec = K.gen_cost(rng, dim, ['sphere', 'illquad', 'abs', 'rosen'])
+    cost_spec = K.gen_cost(rng, dim, ['sphere', 'illquad', 'abs', 'rosen', 'plateau', 'step'])
     raw = K.make_cost(cost_spec)
     probe = K.CostProbe(raw)
     seen = set()
     probe.hooks.append(lambda seq, x: seen.add(tuple(x)))
     box = K.gen_box(rng, dim, None, shape='finite')
+    if cost_spec[0] in ('plateau', 'step') and rng.random() < 0.7:      # several members reach exactly the same (often exactly zero) best energy
+        box = {'lo': [c - 5.0 for c in cost_spec[1]], 'hi': [c + 5.0 for c in cost_spec[1]], 'shape': 'finite'}
     inner_name = rng.choice(['default', 'nm', 'powell', 'de', 'de2'])
     inner = {'nm': NelderMeadSimplexSolver, 'powell': PowellDirectionalSolver, 'de': DifferentialEvolutionSolver, 'de2': DifferentialEvolutionSolver2}.get(inner_name)
     api = rng.choice(['wrapper', 'class_solve', 'class_step'])
